@@ -54,6 +54,13 @@ def mro_unbounded_tasks():
     return [T("MultiTypeMap.mro/positions", mropos_c.t_positions), T("MultiTypeMap.mro._pull/first_group", mropos_c.t_pull_first_group), T("lemma.resolution_any_number_of_methods", mropos_c.t_resolution_lemma)]
 
 
+def resolve_unbounded_tasks():
+    """MultiTypeMap.resolve for any number of ranks and methods per rank (contracts/resolve_u_c.py)."""
+    from contracts import resolve_u_c
+
+    return [T("MultiTypeMap.resolve/any_number_of_ranks", resolve_u_c.t_resolve_unbounded)]
+
+
 def candidate_tasks():
     return [T("Candidate.dominates", typemap_c.t_candidate), T("lemma.sum_of_levels", typemap_c.t_sum_lemma)]
 
@@ -78,6 +85,12 @@ def frame_tasks():
         ("MultiTypeMap.__missing__.writes_nothing_itself", "typemap:MultiTypeMap.__missing__", "writes_within", []),
     ]
     return [T("frames.typemap", frames.frame_task("frames.typemap", checks), "F")]
+
+
+def state_tasks(modules=("typemap", "mro", "core", "recode", "types", "dependent", "utils", "abc")):
+    from contracts import state_c
+
+    return [T("frames.state", state_c.state_task(list(modules)), "F")]
 
 
 def native_c02(perms=False):
